@@ -33,7 +33,9 @@ elif [ "$cmd" = run ]; then
   pid="${3:-$pid}"
   git -C /repo diff --quiet || { echo "/repo is dirty"; exit 2; }
   git -C /repo apply /verif/seeded/$name/patch.diff || exit 2
+  cp evidence/$pid.json /tmp/evidence_keep_$pid.json 2>/dev/null
   ./check $pid $tier > /tmp/seedrun_$name.log 2>&1; rc=$?
   git -C /repo checkout -- .
+  cp /tmp/evidence_keep_$pid.json evidence/$pid.json 2>/dev/null
   echo "$name ($pid): rc=$rc $(grep -m1 VIOLATION /tmp/seedrun_$name.log) | $(tail -1 /tmp/seedrun_$name.log)"
 fi
